@@ -267,7 +267,7 @@ def split(op, input, *args, **kwargs):
         return qfallback(op, input, *args, **kwargs)
     out_datas = op(input._data, *args, **kwargs)
     return [
-        QBytesTensor(input.qtype, input.axis, input.size(), input.stride(), out_data, input._scale)
+        QBytesTensor(input.qtype, input.axis, out_data.size(), out_data.stride(), out_data, input._scale)
         for out_data in out_datas
     ]
 
